@@ -164,6 +164,7 @@ _tpl.register2(V)
 _tpl.register3(V)
 _tpl.register4(V)
 _tpl.register5(V)
+_tpl.register6(V)
 
 # ---------------------------------------------------------------------------- global preserving rewrites
 _ALL = ['C01', 'C02', 'C03', 'C04', 'C05', 'C06', 'C07', 'C08', 'C09', 'C11', 'C12', 'C13', 'C14', 'C15', 'C16',
